@@ -128,6 +128,29 @@ func runC16Dir(em *vEmitter, r *vRng, idx int) {
 			}
 		}
 	}
+	// large directories: the verdict must not depend on how many entries there are or on where
+	// in the (file-system ordered) listing the offending entry sits
+	if r.intn(3) == 0 {
+		plantOne("filler0", false)
+		if c, err := os.ReadFile(filepath.Join(h.base, "filler0.user")); err == nil {
+			n := 9 + r.intn(50)
+			for k := 1; k < n; k++ {
+				write(fmt.Sprintf("filler%d.user", k), c)
+			}
+			class += "+large"
+			switch r.intn(5) {
+			case 0: // a filler with both extensions
+				write(fmt.Sprintf("filler%d.admin", r.intn(n)), c)
+				class = "dir/invalid/both-extensions+large"
+			case 1:
+				write(fmt.Sprintf("filler%d.txt", r.intn(n)), c)
+				class = "dir/invalid/other-extension+large"
+			case 2:
+				os.Mkdir(filepath.Join(h.base, fmt.Sprintf("filler%d.d", r.intn(n))), 0700)
+				class = "dir/invalid/subdirectory+large"
+			}
+		}
+	}
 	h.begin()
 	ops := []vOp{{kind: "check"}, {kind: "list"}, {kind: "listfull"},
 		{kind: "init", u: "newadmin", pw: []byte("initpw")}, {kind: "check"}, {kind: "exists", u: names[0]}}
